@@ -124,13 +124,18 @@ def reindex(df, rng, kind=None):
         df.index = ['id%03d' % i for i in range(n)]
     elif kind == 'dup':
         df.index = [i // 2 for i in range(n)]
+    elif kind == 'nanlabel':    # unknown ids after set_index / an outer merge: some row labels are NaN
+        lab = [float(i) for i in range(n)]
+        for j in rng.sample(range(n), max(1, n // 12)):
+            lab[j] = float('nan')
+        df.index = lab
     elif kind == 'gappy':       # a subset of a larger cohort: increasing labels with gaps, mostly >= n
         df.index = sorted(rng.sample(range(3 * n), n))
     return df, kind
 
 
 # ---- semantic no-ops every estimator must ignore: the caller's row labels and the storage type of a 0/1-coded exposure
-DRESS_INDEX = ['range', 'shuffle', 'gappy', 'shift', 'str']
+DRESS_INDEX = ['range', 'shuffle', 'gappy', 'shift', 'str', 'nanlabel']
 DRESS_ADTYPE = ['int64', 'float64', 'uint8', 'int8', 'int32', 'float32']
 
 
@@ -150,7 +155,7 @@ def pack_frame(df):
     """JSON-able copy of a frame that survives a replay: values (NaN -> None), row labels, storage types"""
     return {'data': {c: [None if (isinstance(v, float) and v != v) else (v.item() if hasattr(v, 'item') else v) for v in df[c].tolist()]
                      for c in df.columns},
-            'index': [i if isinstance(i, str) else (int(i) if float(i) == int(i) else float(i)) for i in df.index],
+            'index': [i if isinstance(i, str) else (None if i != i else (int(i) if float(i) == int(i) else float(i))) for i in df.index],
             'dtypes': {c: str(df[c].dtype) for c in df.columns}}
 
 
@@ -160,7 +165,7 @@ def unpack_frame(p):
         if c in df.columns:
             df[c] = df[c].astype(t)
     if p.get('index') is not None:
-        df.index = p['index']
+        df.index = [float('nan') if i is None else i for i in p['index']]
     return df
 
 
